@@ -31,6 +31,21 @@ CHECKS = {
          "Held on 24k (quick) / 1M (thorough) generated credential maps (4k / 40k spawning real exchanges) plus 56 / 1500 end-to-end runs with percent-encoded URL parts and raw WWW-Authenticate headers.",
          "Keys are the protocol's fixed attribute names (values are adversarial). Header bytes that Go's HTTP client itself rejects never reach git-lfs and are decided by the in-process part.",
          "DESIGN.md §5 C17"),
+ "C01": ("exploration",
+         "runtime monitor: generated contents through one-shot filters fed by a drain-aware chunked pipe writer, an independent filter-process client, git add/checkout/hash-object and the merge driver; byte-equality + SHA-256 oracle, pointer parsed by an independent spec parser",
+         "Held on ~300 (quick) / ~3000 (thorough) seeded cases covering every size class x mode and all (size, mode, working-tree state) triples around the 1024-byte cut-off, with and without a reversible pointer extension; merged pointers shorter/equal/longer than the overwritten one.",
+         "Inputs are non-pointers by construction (pointer pass-through is C08). Pipe chunking waits until the child drained the pipe, which is a legal OS schedule.",
+         "DESIGN.md §5 C01"),
+ "C19": ("exploration",
+         "runtime monitor: track/untrack sequences on generated names/patterns; oracle = Git's own check-attr compared with a twin repository holding the C-quoted pattern, attribute-table frame check, byte idempotence",
+         "Held on 176 (quick) / 5000 (thorough) seeded sequences (length 1-8) over names with spaces, tabs, quotes, #, !, glob characters, backslashes, non-ASCII, nested directories, pre-existing .gitattributes variants; 12 recorded known findings are reproduced and attributed by trigger coordinates.",
+         "Git 2.39.5 is the authority on attribute matching; `--filename N` without slash is allowed to match d/**/N (Git's basename rule). Pattern mode is generated without backslashes.",
+         "DESIGN.md §5 C19"),
+ "C20": ("exploration",
+         "runtime monitor: install/update/uninstall (and implicit hook installers) sequences over generated hook/config pre-states; oracle = before/after snapshots of hook bytes/modes and `git config --show-origin` per scope against a data table of every hook text git-lfs ever generated",
+         "Held on 120 (quick) / 4080 (thorough) seeded sequences of length 1-6 over 23 hook content classes x 4 hooks x 6 config stores x 5 filter value classes x core.hooksPath forms x worktree layouts.",
+         "A custom global value living only in $XDG_CONFIG_HOME/git/config while ~/.gitconfig exists is exercised but not judged (Git 2.39 `config --global` does not read it; outside the quantifier's scope list). uninstall removing the filter.lfs section is its documented purpose.",
+         "DESIGN.md §5 C20"),
 }
 
 NOT_YET = {}
